@@ -70,6 +70,10 @@ inline std::string run_forked(const std::function<std::string()> &f, unsigned ti
     return out;
 }
 
+// exception classes as numbered in coq/Base/Prelude.v (EXN_*); use inside catch blocks:
+//   try { ... } catch (...) { return verif::exn_name(); }
+inline std::string exn_name();
+
 inline std::vector<std::string> split_ws(const std::string &s)
 {
     std::vector<std::string> v;
@@ -81,3 +85,31 @@ inline std::vector<std::string> split_ws(const std::string &s)
 }
 
 } // namespace verif
+
+#ifdef SYMENGINE_EXCEPTION_H
+namespace verif
+{
+inline std::string exn_name()
+{
+    try {
+        throw;
+    } catch (const SymEngine::NotImplementedError &) {
+        return "EXN:1";
+    } catch (const SymEngine::DomainError &) {
+        return "EXN:2";
+    } catch (const SymEngine::DivisionByZeroError &) {
+        return "EXN:3";
+    } catch (const SymEngine::ParseError &) {
+        return "EXN:4";
+    } catch (const SymEngine::SerializationError &) {
+        return "EXN:5";
+    } catch (const SymEngine::SymEngineException &) {
+        return "EXN:6";
+    } catch (const std::exception &) {
+        return "EXN:7";
+    } catch (...) {
+        return "EXN:8";
+    }
+}
+} // namespace verif
+#endif
